@@ -993,3 +993,35 @@ Qed.
 
 Lemma init_state_ok a b c0 : state_P chunk_ok (init_state a b c0).
 Proof. split; constructor. Qed.
+
+(* ------------------------------------------------------------------ the late-SACK filter at the 2^32 wrap (finding F-C13-1, fixed) *)
+(* the filter as it was before the fix: measured against the numerically first key *)
+Definition late_sack_unfixed (sent : list rec) (cum : Z) (gaps : list (Z * Z)) : bool :=
+  match sent with
+  | [] => false
+  | r0 :: _ => (i32_sub cum (wrap32 (r_tsn r0 - 1)) <? 0) && (i32_sub (max_reported_of cum gaps) (r_tsn r0) <? 0)
+  end.
+
+Definition wrap_cfg : cfg := mkCfg 0 262144 8 131072 [mkCh 0 true 1200].
+Definition wrap_prefix : list op := [OpSend 0 53 [1]; OpSend 0 53 [2]; OpSend 0 53 [3]; OpTransmit].
+Definition wrap_state : st := fst (run wrap_cfg (init_state 4294967294 1048576 5) wrap_prefix).
+
+(* three chunks with TSNs 2^32-2, 2^32-1, 0 are outstanding; the peer acknowledges 2^32-2.
+   Unfixed: the SACK is classified as late although it covers an outstanding TSN ... *)
+Lemma wrap_unfixed_drops_fresh_sack :
+  map r_tsn (s_sent wrap_state) = [0; 4294967294; 4294967295] /\
+  late_sack_unfixed (s_sent wrap_state) 4294967294 [] = true /\
+  sack_covers 4294967294 [] 4294967294 /\
+  rtxable (s_sent wrap_state) 4294967294.
+Proof.
+  split; [vm_compute; reflexivity|]. split; [vm_compute; reflexivity|]. split; [left; vm_compute; discriminate|].
+  unfold rtxable. eexists. split; [right; left; reflexivity|]. vm_compute. split; reflexivity.
+Qed.
+(* ... fixed: it is processed, and the run in which T3 then fires does not retransmit 2^32-2 *)
+Lemma wrap_fixed_processes_sack :
+  late_sack (s_sent wrap_state) 4294967294 [] = false /\
+  retx_tsns (chunks_of (snd (run wrap_cfg wrap_state [OpSack 10 4294967294 1048576 []; OpT3; OpTransmit]))) = [0; 4294967295].
+Proof. split; vm_compute; reflexivity. Qed.
+
+Lemma acked_emptied_reachable c ops a b c0 : acked_emptied (s_sent (fst (run c (init_state a b c0) ops))).
+Proof. exact (run_acked_emptied c ops _ (init_acked_emptied a b c0)). Qed.
